@@ -759,4 +759,68 @@ theorem horizontalOrdered_get (b : Base) (neg : Bool) (L j c : Nat) (hj : j < L)
     obtain ⟨_, _, rfl⟩ := hblk
     simp [hlen]
 
+/-! ### decidable input conditions -/
+
+theorem isEdgeB_sound (f : Nat × Nat) (p q : Nat) (h : isEdgeB f p q = true) : IsEdge f p q := by
+  simp only [isEdgeB, Bool.or_eq_true, Bool.and_eq_true, decide_eq_true_eq] at h
+  exact h
+
+theorem filter_length_one {α : Type} (P : α → Bool) : ∀ (cells : List α),
+    (cells.filter P).length = 1 →
+      ∃ c cell, cells[c]? = some cell ∧ P cell = true ∧
+        ∀ (c' : Nat) (cell' : α), c' ≠ c → cells[c']? = some cell' → P cell' = false := by
+  intro cells
+  induction cells with
+  | nil => intro h; simp at h
+  | cons x xs ih =>
+    intro h
+    cases hx : P x with
+    | true =>
+      rw [List.filter_cons_of_pos (by simpa using hx)] at h
+      have hnil : xs.filter P = [] := by
+        cases hf : xs.filter P with
+        | nil => rfl
+        | cons _ _ => rw [hf] at h; simp at h
+      refine ⟨0, x, by simp, hx, ?_⟩
+      intro c' cell' hne hget
+      cases c' with
+      | zero => exact absurd rfl hne
+      | succ n =>
+        simp only [List.getElem?_cons_succ] at hget
+        have hm : cell' ∈ xs := List.mem_of_getElem? hget
+        have := (List.filter_eq_nil_iff.mp hnil) cell' hm
+        simpa using this
+    | false =>
+      rw [List.filter_cons_of_neg (by simp [hx])] at h
+      obtain ⟨c, cell, hc, hP, huniq⟩ := ih h
+      refine ⟨c + 1, cell, by simpa using hc, hP, ?_⟩
+      intro c' cell' hne hget
+      cases c' with
+      | zero =>
+        simp only [List.getElem?_cons_zero, Option.some.injEq] at hget
+        subst hget; exact hx
+      | succ n =>
+        simp only [List.getElem?_cons_succ] at hget
+        exact huniq n cell' (by omega) hget
+
+theorem heights_pos_B : ∀ (z : List Rat), increasingB z = true → ∀ h ∈ heights z, 0 < h
+  | [], _, h, hm => by simp [heights] at hm
+  | [_], _, h, hm => by simp [heights] at hm
+  | a :: b :: rest, hinc, h, hm => by
+    simp only [increasingB, Bool.and_eq_true, decide_eq_true_eq] at hinc
+    simp only [heights, List.mem_cons] at hm
+    rcases hm with rfl | hm
+    · linarith [hinc.1]
+    · exact heights_pos_B (b :: rest) hinc.2 h hm
+
+theorem heights_neg_B : ∀ (z : List Rat), decreasingB z = true → ∀ h ∈ heights z, h < 0
+  | [], _, h, hm => by simp [heights] at hm
+  | [_], _, h, hm => by simp [heights] at hm
+  | a :: b :: rest, hdec, h, hm => by
+    simp only [decreasingB, Bool.and_eq_true, decide_eq_true_eq] at hdec
+    simp only [heights, List.mem_cons] at hm
+    rcases hm with rfl | hm
+    · linarith [hdec.1]
+    · exact heights_neg_B (b :: rest) hdec.2 h hm
+
 end PorepyVerif.C23
